@@ -24,6 +24,7 @@ import SharkVerif.Lemmas.Subset
 import SharkVerif.Lemmas.View
 import SharkVerif.Lemmas.ByClass
 import SharkVerif.Lemmas.RepartitionLoop
+import SharkVerif.Lemmas.BinarySub
 namespace SharkVerif.C03
 open SharkVerif.CheckedNat SharkVerif.Gen.BatchArith SharkVerif.BatchArith SharkVerif.Dataset
 
@@ -1046,6 +1047,38 @@ theorem repartitionByClass_sorted (d d' : CData ι) (bs : Nat) (hw : WF d) (h : 
   rw [e1, e2] at h1
   rw [h1]
   exact classOrder_sorted _ _
+
+/-- **binarySubProblem, exactly as the C++ scans**: with non-empty batches, let `fl` be the label of the first
+element of every batch.  The function takes the first maximal run of batches with `fl = smaller`, then the first
+later maximal run with `fl = bigger`, and returns those batches (in that order, inputs paired with their labels:
+`indexedSubset_pairs`) with every label `l` replaced by `[l = oneClass]` (`transformLabels_pairs`); it throws iff
+one of the two runs does not exist.  On a class-grouped dataset (what `repartitionByClass` leaves) these runs are
+all batches of the two classes. -/
+theorem binarySubProblem_spec (d : CData ι) (hne : ∀ b ∈ d.labels.batches, b ≠ []) (c0 c1 : Nat) :
+    let sm := min c0 c1
+    let bg := max c0 c1
+    let fl := d.labels.batches.map (·[0]?)
+    let l1 := fl.dropWhile (fun x => x != some sm)
+    let s1 := (fl.takeWhile (fun x => x != some sm)).length
+    let k1 := (l1.takeWhile (fun x => x == some sm)).length
+    let l2 := l1.dropWhile (fun x => x == some sm)
+    let l3 := l2.dropWhile (fun x => x != some bg)
+    let s2 := s1 + k1 + (l2.takeWhile (fun x => x != some bg)).length
+    let k2 := (l3.takeWhile (fun x => x == some bg)).length
+    binarySubProblem d c0 c1 =
+      if l1.isEmpty then .error .exception
+      else if l3.isEmpty then .error .exception
+      else (d.indexedSubset ((List.range k1).map (· + s1) ++ (List.range k2).map (· + s2))) >>= fun sub =>
+        sub.transformLabels (fun l => if l = c1 then 1 else 0) [] := by
+  intro sm bg fl l1 s1 k1 l2 l3 s2 k2
+  exact bsp_aux d hne c0 c1 sm bg fl l1 l2 l3 s1 k1 s2 k2 rfl rfl rfl rfl rfl rfl rfl rfl rfl rfl
+
+/-- `oneVersusRestProblem`: inputs untouched, label `l` becomes `[l = oneClass]` -/
+theorem oneVersusRest_pairs (d : CData ι) (c : Nat) (h : WF d) :
+    ∃ d', oneVersusRestProblem d c = .ok d' ∧ WF d' ∧
+      pairs d' = (pairs d).map (fun p => (p.1, if p.2 = c then 1 else 0)) := by
+  obtain ⟨d', h1, h2, h3, _⟩ := transformLabels_pairs d (fun l => if l = c then 1 else 0) [] h
+  exact ⟨d', h1, h2, h3⟩
 
 /-! ## non-vacuity -/
 example : optimalBatchSizes 10 4 = some [4, 3, 3] := by decide
